@@ -115,6 +115,20 @@ func (p *Parser) Parse(source string) (Node, error) {
 		return nil, fmt.Errorf("parsing error: %w", err)
 	}
 
+	// Let the macros of this template find each other
+	var macros map[string]Node
+	for _, node := range nodes {
+		if macro, ok := node.(*MacroNode); ok {
+			if macros == nil {
+				macros = make(map[string]Node)
+			}
+			macros[macro.name] = macro
+		}
+	}
+	for _, macro := range macros {
+		macro.(*MacroNode).siblings = macros
+	}
+
 	return NewRootNode(nodes, 1), nil
 }
 
